@@ -113,11 +113,7 @@ def run(ctx):
               node=program.func(CYC), rel="decorators/state.py")
 
     ctx.rule("R05.2", "the run released when a hold expires carries the arguments of the event that started the hold", floor=1)
-    r = _cycle_run(program, [("note", A1, False, True, True), ("note", A2, False, True, True), ("timeout",)], te=None, fe=None, S=S0, H=None, times=[100.0, 101.0, 106.0])
-    ok = r is not None and len(r["dispatch"]) == 1 and r["dispatch"][0] == A1
-    ctx.check(ok, "R05.2", CYC, "new: hold expiry dispatches the first event's arguments",
-              msg=f"StateTriggerDecorator._cycle: hold started by event 'first'; a second true evaluation 'second' arrives during the hold; at expiry the run is dispatched with "
-              f"{[repr(d) for d in (r['dispatch'] if r else [])]} (specified: the arguments of 'first')", key="new hold expiry args", node=program.func(CYC), rel="decorators/state.py")
+    hold_expiry_rule(ctx, program, "R05.2")
 
     ctx.rule("R05.7", "while a hold is pending every wait is armed for exactly the time that is left of it (state_hold minus the time already elapsed)", floor=2)
     r = _cycle_run(program, [("note", A1, False, True, True), ("note", A2, False, False, True), ("note", A2, False, True, True), ("timeout",)], te=None, fe=None, S=S0, H=None,
@@ -283,6 +279,25 @@ def legacy_hold_rules(ctx, program, rid, uids=("trigger.py::TrigInfo.trigger_wat
                       f"[(n, v): released after the n-th history item with the arguments of the event whose value is v]", key=f"legacy scenario {label}", node=program.func(uid), rel="trigger.py")
 
 
+def hold_expiry_rule(ctx, program, rid):
+    """New subsystem: the run released at hold expiry (timer path and notification path) carries the first event's arguments and guard values."""
+    S0 = 5.0
+    r = _cycle_run(program, [("note", A1, False, True, True), ("note", A2, False, True, True), ("timeout",)], te=None, fe=None, S=S0, H=None, times=[100.0, 101.0, 106.0])
+    first_vars = DictV([(Const("d.e"), Const("v0"))])
+    ok = r is not None and len(r["dispatch"]) == 1 and r["dispatch"][0] == A1 and r["dispatch_vars"] == [first_vars]
+    ctx.check(ok, rid, CYC, "new: hold expiry dispatches the first event's arguments and values",
+              msg=f"StateTriggerDecorator._cycle: hold started by event 'first'; a second true evaluation 'second' arrives during the hold; at expiry the run is dispatched with "
+              f"{[repr(d) for d in (r['dispatch'] if r else [])]} and the values {[repr(d) for d in (r['dispatch_vars'] if r else [])]} for the guards (specified: the arguments and the values of 'first', {first_vars!r})", key="new hold expiry args", node=program.func(CYC), rel="decorators/state.py")
+
+    # expiry noticed on a later notification (not by the timer)
+    r = _cycle_run(program, [("note", A1, False, True, True), ("note", A2, False, True, True)], te=None, fe=None, S=S0, H=None, times=[100.0, 106.0])
+    ok = r is not None and len(r["dispatch"]) == 1 and r["dispatch"][0] == A1 and r["dispatch_vars"] == [first_vars]
+    ctx.check(ok, rid, CYC, "new: hold found expired on a later notification dispatches the first event's arguments and values",
+              msg=f"StateTriggerDecorator._cycle: hold started by 'first' at 100.0, the next true evaluation arrives at 106.0 (> state_hold): dispatched with "
+              f"{[repr(d) for d in (r['dispatch'] if r else [])]} / values {[repr(d) for d in (r['dispatch_vars'] if r else [])]} (specified: those of 'first')", key="new hold expiry args (late notification)",
+              node=program.func(CYC), rel="decorators/state.py")
+
+
 def _cycle_run(program, script, te, fe, S, H, times, check_now=False, expr_true=True, from_start=False):
     """Run _cycle with a scripted queue: ('note', func_args, any, changed, expr_true) | ('timeout',) | ('stop',)."""
     def phase(cfg):
@@ -306,7 +321,7 @@ def _cycle_run(program, script, te, fe, S, H, times, check_now=False, expr_true=
             out.add("raise", cfg.set("$exc", ExcV("TimeoutError", "hold expiry")))
             return []
         cfg = cfg.hset("$cur", Const(p))
-        return [(cfg, ListV([Const("state"), ListV([DictV([(Const("d.e"), Const("v"))]), item[1]])], "tuple"))]
+        return [(cfg, ListV([Const("state"), ListV([DictV([(Const("d.e"), Const(f"v{p}"))]), item[1]])], "tuple"))]
 
     def cur(cfg):
         item = script[cfg.heap.get("$cur", Const(0)).v]
@@ -326,6 +341,7 @@ def _cycle_run(program, script, te, fe, S, H, times, check_now=False, expr_true=
         "asyncio.get_running_loop": lambda i, n, a, k, c, o: [(c, ObjV("loop", "Loop"))],
         "_LOGGER.isEnabledFor": lambda i, n, a, k, c, o: [(c, Const(False))],
         "State.notify_var_get": lambda i, n, a, k, c, o: [(c, DictV(()))],
+        "DispatchData": lambda i, n, a, k, c, o: [(c, App("new", (ClassV("DispatchData"), a[0] if a else NONE, k.get("trigger_context", NONE))))],
     }
 
     class P(FlowPolicy):
@@ -336,6 +352,9 @@ def _cycle_run(program, script, te, fe, S, H, times, check_now=False, expr_true=
                 dd = args[0] if args else None
                 fa = dd.args[1] if isinstance(dd, App) and dd.op == "new" and len(dd.args) > 1 else dd
                 cfg = cfg.hset("$dispatched", ListV(cfg.heap.get("$dispatched", ListV(())).items + (fa,)))
+                tc = dd.args[2] if isinstance(dd, App) and dd.op == "new" and len(dd.args) > 2 else NONE
+                nv = tc.get(Const("new_vars")) if isinstance(tc, DictV) else None
+                cfg = cfg.hset("$dispatched_vars", ListV(cfg.heap.get("$dispatched_vars", ListV(())).items + (nv if nv is not None else NONE,)))
                 return [(cfg, NONE)]
             return super().call(interp, node, fname, fval, args, kwargs, cfg, out)
 
@@ -369,5 +388,5 @@ def _cycle_run(program, script, te, fe, S, H, times, check_now=False, expr_true=
     c = ends[0]
     te2, fe2 = c.heap.get("self.true_entered_at"), c.heap.get("self.false_entered_at")
     return {"dispatch": list(c.heap.get("$dispatched", ListV(())).items), "te": te2.v if isinstance(te2, Const) else repr(te2), "fe": fe2.v if isinstance(fe2, Const) else repr(fe2),
-            "args": c.heap.get("self.last_func_args"),
+            "args": c.heap.get("self.last_func_args"), "dispatch_vars": list(c.heap.get("$dispatched_vars", ListV(())).items),
             "timeouts": [t.v if isinstance(t, Const) else repr(t) for t in c.heap.get("$timeouts", ListV(())).items]}
